@@ -1,5 +1,6 @@
 import Dmn.Lemmas.TemporalImpl
 import Dmn.Lemmas.TemporalBuiltins
+import Dmn.Lemmas.TemporalLocal
 
 /-!
 # C15 — dates, date-times and durations follow the calendar and the UTC time line
@@ -659,5 +660,474 @@ theorem dur_add_neg_cmp (a b c : Int) :
 theorem dur_add_neg_cmp_instances :
     feelAddYmd 12 1 = some 13 ∧ feelNegYmd 12 = some (-12) ∧ feelSubYmd 12 1 = some 11 ∧
     feelSubDtd 86400000000000 3600000000000 = some 82800000000000 := by decide
+
+/-! ## The arithmetic of date-times the code has: differences, order and sums of differences
+
+`+` and binary `-` of the evaluator know two date-and-times (difference) and two durations of one kind;
+a date, a time or a date and time plus or minus a duration is null (`temporal_add_sub_domain` — not named
+by the property, not implemented). The laws below are therefore stated on what exists: the difference of
+date-times, their order, and sums of differences. They need no range guard: whenever the differences are
+values at all, the laws hold (the ranges are inside `subtract … = .val _`). -/
+
+/-- `(a − b) + (b − c) = a − c`: when the first two differences are values and their sum fits the `i64`
+nanoseconds of a difference, the third difference is that sum; in any case, when all three are values the
+sum of durations the evaluator computes is the third. -/
+theorem datetime_sub_chasles (a b c : DateTime) (oa ob oc : Option Int) (p q : Int)
+    (na : a.time.ns < 1000000000) (nb : b.time.ns < 1000000000) (nc : c.time.ns < 1000000000)
+    (hab : subtract a b oa ob = .val p) (hbc : subtract b c ob oc = .val q) :
+    (i64Min ≤ p + q ∧ p + q ≤ i64Max → subtract a c oa oc = .val (p + q)) ∧
+    (∀ r, subtract a c oa oc = .val r → feelAddDtd p q = some r) := by
+  obtain ⟨x, y, i, j, ha, hb, ep, _, _⟩ := subtract_val hab
+  obtain ⟨y', z, j', k, hb', hc, eq, _, _⟩ := subtract_val hbc
+  obtain ⟨_, ej⟩ := DateTime.resolves_unique hb hb'
+  subst ej
+  obtain ⟨_, _, _, _, fi⟩ := DateTime.resolves_inst na ha
+  obtain ⟨_, _, _, _, fj⟩ := DateTime.resolves_inst nb hb
+  obtain ⟨_, _, _, _, fk⟩ := DateTime.resolves_inst nc hc
+  rw [Instant.diff_nanos i j fi fj] at ep
+  rw [Instant.diff_nanos j k fj fk] at eq
+  have key : i.diffNanos k = p + q := by rw [Instant.diff_nanos i k fi fk]; omega
+  have hs := subtract_of ha hc
+  rw [key] at hs
+  constructor
+  · intro hf; rw [hs, if_pos hf]
+  · intro r hr
+    rw [hs] at hr
+    split at hr
+    · injection hr with hr; simp [feelAddDtd, hr]
+    · cases hr
+
+example :
+    subtract ⟨⟨2021, 3, 1⟩, ⟨0, 0, 0, 0, .offset 3600⟩⟩ ⟨⟨2021, 2, 28⟩, ⟨23, 0, 0, 0, .utc⟩⟩ none none = .val 0 ∧
+    subtract ⟨⟨2021, 2, 28⟩, ⟨23, 0, 0, 0, .utc⟩⟩ ⟨⟨2021, 2, 28⟩, ⟨12, 0, 0, 500, .offset (-7200)⟩⟩ none none
+      = .val 32399999999500 ∧
+    subtract ⟨⟨2021, 3, 1⟩, ⟨0, 0, 0, 0, .offset 3600⟩⟩ ⟨⟨2021, 2, 28⟩, ⟨12, 0, 0, 500, .offset (-7200)⟩⟩ none none
+      = .val 32399999999500 := by decide
+
+/-- `b − a = −(a − b)`, and `a − a = PT0S`. (`i64::MIN` nanoseconds have no negative in the range of a
+difference.) -/
+theorem datetime_sub_antisymm (a b : DateTime) (oa ob : Option Int) (p : Int)
+    (na : a.time.ns < 1000000000) (nb : b.time.ns < 1000000000)
+    (hab : subtract a b oa ob = .val p) :
+    (p ≠ i64Min → subtract b a ob oa = .val (-p) ∧ feelNegDtd p = some (-p)) ∧
+    subtract a a oa oa = .val 0 ∧ subtract b b ob ob = .val 0 := by
+  obtain ⟨x, y, i, j, ha, hb, ep, h0, h1⟩ := subtract_val hab
+  obtain ⟨_, _, _, _, fi⟩ := DateTime.resolves_inst na ha
+  obtain ⟨_, _, _, _, fj⟩ := DateTime.resolves_inst nb hb
+  rw [Instant.diff_nanos i j fi fj] at ep
+  refine ⟨?_, ?_, ?_⟩
+  · intro hp
+    have key : j.diffNanos i = -p := by rw [Instant.diff_nanos j i fj fi]; omega
+    rw [subtract_of hb ha, key, if_pos (by unfold i64Min i64Max at *; omega)]
+    exact ⟨rfl, rfl⟩
+  · have key : i.diffNanos i = 0 := by rw [Instant.diff_nanos i i fi fi]; omega
+    rw [subtract_of ha ha, key, if_pos (by decide)]
+  · have key : j.diffNanos j = 0 := by rw [Instant.diff_nanos j j fj fj]; omega
+    rw [subtract_of hb hb, key, if_pos (by decide)]
+
+/-- The order of two date-times is the sign of their difference; they are equal exactly when the
+difference is `PT0S`. -/
+theorem datetime_sub_sign (a b : DateTime) (oa ob : Option Int) (p : Int)
+    (na : a.time.ns < 1000000000) (nb : b.time.ns < 1000000000)
+    (hab : subtract a b oa ob = .val p) :
+    Temporal.compare a b oa ob = .val (ord3 p 0) ∧
+    (Temporal.compare a b oa ob = .val .eq ↔ p = 0) ∧
+    (dtBefore a b oa ob = .val true ↔ p < 0) := by
+  obtain ⟨x, y, i, j, ha, hb, ep, _, _⟩ := subtract_val hab
+  obtain ⟨_, i0, i1, f0, f1⟩ := DateTime.resolves_inst na ha
+  obtain ⟨_, j0, j1, g0, g1⟩ := DateTime.resolves_inst nb hb
+  rw [Instant.diff_nanos i j f1 g1] at ep
+  have hc : Temporal.compare a b oa ob = .val (ord3 p 0) := by
+    rw [compare_of ha hb, Instant.cmp_nanos i j i0 i1 j0 j1 f0 f1 g0 g1, ep, ord3_zero]
+  refine ⟨hc, ?_, ?_⟩
+  · rw [hc]
+    constructor
+    · intro h; injection h with h; have := (ord3_eq_iff p 0).1 h; exact this
+    · intro h; rw [(ord3_eq_iff p 0).2 h]
+  · unfold dtBefore
+    rw [hc]
+    constructor
+    · intro h
+      injection h with h
+      have : ord3 p 0 = .lt := by
+        cases ho : ord3 p 0 <;> rw [ho] at h <;> first | rfl | cases h
+      exact (ord3_lt_iff p 0).1 this
+    · intro h; rw [(ord3_lt_iff p 0).2 h]; rfl
+
+/-- Order is compatible with subtraction: `a < b ↔ a − c < b − c` (and `=`, `>` alike) — the order of two
+date-times is the order of their distances from any third one. In particular `a − c = b − c` only for
+equal `a`, `b`. -/
+theorem datetime_order_sub_compat (a b c : DateTime) (oa ob oc : Option Int) (p q : Int)
+    (na : a.time.ns < 1000000000) (nb : b.time.ns < 1000000000) (nc : c.time.ns < 1000000000)
+    (hac : subtract a c oa oc = .val p) (hbc : subtract b c ob oc = .val q) :
+    Temporal.compare a b oa ob = .val (ord3 p q) ∧
+    (p = q → Temporal.compare a b oa ob = .val .eq) := by
+  obtain ⟨x, z, i, k, ha, hc, ep, _, _⟩ := subtract_val hac
+  obtain ⟨y, z', j, k', hb, hc', eq, _, _⟩ := subtract_val hbc
+  obtain ⟨_, ek⟩ := DateTime.resolves_unique hc hc'
+  subst ek
+  obtain ⟨_, i0, i1, f0, f1⟩ := DateTime.resolves_inst na ha
+  obtain ⟨_, j0, j1, g0, g1⟩ := DateTime.resolves_inst nb hb
+  obtain ⟨_, _, _, _, fk⟩ := DateTime.resolves_inst nc hc
+  rw [Instant.diff_nanos i k f1 fk] at ep
+  rw [Instant.diff_nanos j k g1 fk] at eq
+  have hc : Temporal.compare a b oa ob = .val (ord3 p q) := by
+    rw [compare_of ha hb, Instant.cmp_nanos i j i0 i1 j0 j1 f0 f1 g0 g1, ep, eq, ord3_sub]
+  exact ⟨hc, fun h => by rw [hc, (ord3_eq_iff p q).2 h]⟩
+
+example :
+    subtract ⟨⟨2021, 1, 1⟩, ⟨0, 30, 0, 0, .offset 3600⟩⟩ ⟨⟨2020, 1, 1⟩, ⟨0, 0, 0, 0, .utc⟩⟩ none none
+      = .val 31620600000000000 ∧
+    subtract ⟨⟨2020, 12, 31⟩, ⟨23, 45, 0, 0, .utc⟩⟩ ⟨⟨2020, 1, 1⟩, ⟨0, 0, 0, 0, .utc⟩⟩ none none
+      = .val 31621500000000000 ∧
+    Temporal.compare ⟨⟨2021, 1, 1⟩, ⟨0, 30, 0, 0, .offset 3600⟩⟩ ⟨⟨2020, 12, 31⟩, ⟨23, 45, 0, 0, .utc⟩⟩ none none
+      = .val .lt := by decide
+
+/-- Comparison of date-times is a total order wherever it answers: swapping the operands swaps the
+answer, `<` is transitive, and two values that both compare with a third compare with each other. -/
+theorem datetime_compare_total_order (a b c : DateTime) (oa ob oc : Option Int)
+    (na : a.time.ns < 1000000000) (nb : b.time.ns < 1000000000) (nc : c.time.ns < 1000000000) :
+    (Temporal.compare a b oa ob = .val .lt ↔ Temporal.compare b a ob oa = .val .gt) ∧
+    (Temporal.compare a b oa ob = .val .eq ↔ Temporal.compare b a ob oa = .val .eq) ∧
+    (Temporal.compare a b oa ob = .val .lt → Temporal.compare b c ob oc = .val .lt →
+      Temporal.compare a c oa oc = .val .lt) ∧
+    (∀ o1 o2, Temporal.compare a b oa ob = .val o1 → Temporal.compare b c ob oc = .val o2 →
+      ∃ o3, Temporal.compare a c oa oc = .val o3) := by
+  have swap : ∀ (u v : DateTime) (ou ov : Option Int), u.time.ns < 1000000000 → v.time.ns < 1000000000 →
+      ∀ o, Temporal.compare u v ou ov = .val o →
+        ∃ m n : Int, o = ord3 m n ∧ Temporal.compare v u ov ou = .val (ord3 n m) := by
+    intro u v ou ov nu nv o h
+    obtain ⟨x, y, i, j, hu, hv, eo⟩ := compare_val h
+    obtain ⟨_, i0, i1, f0, f1⟩ := DateTime.resolves_inst nu hu
+    obtain ⟨_, j0, j1, g0, g1⟩ := DateTime.resolves_inst nv hv
+    refine ⟨i.nanos, j.nanos, ?_, ?_⟩
+    · rw [eo, Instant.cmp_nanos i j i0 i1 j0 j1 f0 f1 g0 g1]
+    · rw [compare_of hv hu, Instant.cmp_nanos j i j0 j1 i0 i1 g0 g1 f0 f1]
+  refine ⟨⟨?_, ?_⟩, ⟨?_, ?_⟩, ?_, ?_⟩
+  · intro h
+    obtain ⟨m, n, e, h'⟩ := swap a b oa ob na nb _ h
+    rw [h', (ord3_gt_iff n m).2 ((ord3_lt_iff m n).1 e.symm)]
+  · intro h
+    obtain ⟨m, n, e, h'⟩ := swap b a ob oa nb na _ h
+    rw [h', (ord3_lt_iff n m).2 ((ord3_gt_iff m n).1 e.symm)]
+  · intro h
+    obtain ⟨m, n, e, h'⟩ := swap a b oa ob na nb _ h
+    rw [h', (ord3_eq_iff n m).2 ((ord3_eq_iff m n).1 e.symm).symm]
+  · intro h
+    obtain ⟨m, n, e, h'⟩ := swap b a ob oa nb na _ h
+    rw [h', (ord3_eq_iff n m).2 ((ord3_eq_iff m n).1 e.symm).symm]
+  · intro h1 h2
+    obtain ⟨x, y, i, j, ha, hb, e1⟩ := compare_val h1
+    obtain ⟨y', z, j', k, hb', hc, e2⟩ := compare_val h2
+    obtain ⟨_, ej⟩ := DateTime.resolves_unique hb hb'
+    subst ej
+    obtain ⟨_, i0, i1, f0, f1⟩ := DateTime.resolves_inst na ha
+    obtain ⟨_, j0, j1, g0, g1⟩ := DateTime.resolves_inst nb hb
+    obtain ⟨_, k0, k1, l0, l1⟩ := DateTime.resolves_inst nc hc
+    rw [Instant.cmp_nanos i j i0 i1 j0 j1 f0 f1 g0 g1] at e1
+    rw [Instant.cmp_nanos j k j0 j1 k0 k1 g0 g1 l0 l1] at e2
+    rw [compare_of ha hc, Instant.cmp_nanos i k i0 i1 k0 k1 f0 f1 l0 l1,
+      ord3_trans _ _ _ e1.symm e2.symm]
+  · intro o1 o2 h1 h2
+    obtain ⟨x, y, i, j, ha, hb, _⟩ := compare_val h1
+    obtain ⟨y', z, j', k, hb', hc, _⟩ := compare_val h2
+    exact ⟨_, compare_of ha hc⟩
+
+example :
+    Temporal.compare ⟨⟨2021, 1, 1⟩, ⟨0, 30, 0, 0, .offset 3600⟩⟩ ⟨⟨2020, 12, 31⟩, ⟨23, 45, 0, 0, .utc⟩⟩ none none
+      = .val .lt ∧
+    Temporal.compare ⟨⟨2020, 12, 31⟩, ⟨23, 45, 0, 0, .utc⟩⟩ ⟨⟨2020, 12, 31⟩, ⟨19, 0, 0, 0, .offset (-18000)⟩⟩ none none
+      = .val .lt := by decide
+
+/-- What `+` and binary `-` do on temporal values (`build_add`, `build_sub`): a sum is a value only for two
+durations of one kind (years-and-months: while the months fit `i64`); a difference only for two durations of
+one kind or two date-and-times. A date, a time or a date and time plus or minus a duration, the difference of
+two dates or two times: null (not implemented; the property names none of them). -/
+theorem temporal_add_sub_domain (a b : Value) (oa ob : Option Int) :
+    (feelAdd a b ≠ .null →
+      (∃ x y, a = .dtDur x ∧ b = .dtDur y ∧ feelAdd a b = .dtDur (x + y)) ∨
+      (∃ x y, a = .ymDur x ∧ b = .ymDur y ∧ feelAdd a b = .ymDur (x + y))) ∧
+    (feelSub a b oa ob ≠ .null →
+      (∃ x y, a = .dtDur x ∧ b = .dtDur y ∧ feelSub a b oa ob = .dtDur (x - y)) ∨
+      (∃ x y, a = .ymDur x ∧ b = .ymDur y ∧ feelSub a b oa ob = .ymDur (x - y)) ∨
+      (∃ x y, a = .dateTime x ∧ b = .dateTime y)) := by
+  constructor
+  · intro h
+    cases a <;> cases b <;> simp [feelAdd] at h ⊢
+    rename_i x y
+    by_cases hf : i64Min ≤ x + y ∧ x + y ≤ i64Max
+    · simp [checkedI64, hf]
+    · simp [checkedI64, hf] at h
+  · intro h
+    cases a <;> cases b <;> simp [feelSub] at h ⊢
+    rename_i x y
+    by_cases hf : i64Min ≤ x - y ∧ x - y ≤ i64Max
+    · simp [checkedI64, hf]
+    · simp [checkedI64, hf] at h
+
+example :
+    feelAdd (.date ⟨2021, 1, 31⟩) (.ymDur 1) = .null ∧ feelAdd (.ymDur 1) (.date ⟨2021, 1, 31⟩) = .null ∧
+    feelAdd (.dateTime ⟨⟨2021, 1, 31⟩, ⟨0, 0, 0, 0, .utc⟩⟩) (.dtDur 1) = .null ∧
+    feelSub (.date ⟨2021, 1, 31⟩) (.date ⟨2021, 1, 1⟩) none none = .null ∧
+    feelAdd (.ymDur 9223372036854775807) (.ymDur 1) = .null ∧
+    feelAdd (.dtDur 86400000000000) (.dtDur 1) = .dtDur 86400000000001 ∧
+    feelSub (.dateTime ⟨⟨2021, 1, 1⟩, ⟨0, 0, 0, 0, .utc⟩⟩) (.dateTime ⟨⟨2020, 1, 1⟩, ⟨0, 0, 0, 0, .offset 3600⟩⟩)
+      none none = .dtDur 31626000000000000 := by decide
+
+/-! ## Whole months and the addition of months (specification)
+
+The code has no `date + years and months duration` (`temporal_add_sub_domain`); the specification has it
+(`Cal.addMonths`: the month is shifted, the day clamped to the last day of the target month — the XSD / FEEL
+rule), and "the number of whole months between two dates" is stated against it. -/
+
+/-- Adding months to a calendar date gives a calendar date, `n` months away on the scale `12·y + m`, with the
+same day of the month unless that month is shorter — then its last day (and exactly then the addition is said
+to clamp). -/
+theorem addMonths_valid (y m d n ry rm rd : Int) (hv : validDate y m d = true)
+    (hr : addMonths y m d n = (ry, rm, rd)) :
+    validDate ry rm rd = true ∧ 12 * ry + rm = 12 * y + m + n ∧ 1 ≤ rm ∧ rm ≤ 12 ∧
+    (rd = d ∨ (rd = daysInMonth ry rm ∧ rd < d)) ∧ (addMonthsClamps y m d n = true ↔ rd < d) := by
+  simp only [validDate, Bool.and_eq_true, decide_eq_true_eq] at hv
+  obtain ⟨⟨⟨h1, h12⟩, hd1⟩, hdm⟩ := hv
+  have hdim : ∀ yy mm : Int, 1 ≤ mm → mm ≤ 12 → 28 ≤ daysInMonth yy mm ∧ daysInMonth yy mm ≤ 31 := by
+    intro yy mm a b
+    unfold daysInMonth
+    split
+    · omega
+    · split
+      · omega
+      · split
+        · split <;> omega
+        · omega
+  simp only [addMonths, monthShift, Prod.mk.injEq] at hr
+  obtain ⟨e1, e2, e3⟩ := hr
+  have hcl : addMonthsClamps y m d n = true ↔ daysInMonth ry rm < d := by
+    have hsft : monthShift y m n = (ry, rm) := by simp only [monthShift, e1, e2]
+    unfold addMonthsClamps
+    rw [hsft]
+    simp
+  rw [hcl]
+  simp only [validDate, Bool.and_eq_true, decide_eq_true_eq]
+  have hm1 : 1 ≤ rm := by omega
+  have hm2 : rm ≤ 12 := by omega
+  obtain ⟨g1, g2⟩ := hdim ry rm hm1 hm2
+  rw [e1, e2] at e3
+  generalize daysInMonth ry rm = dim at *
+  refine ⟨⟨⟨⟨hm1, hm2⟩, by omega⟩, by omega⟩, by omega, hm1, hm2, by omega, by omega⟩
+
+example : validDate 2020 1 31 = true ∧ addMonths 2020 1 31 1 = (2020, 2, 29) ∧
+    addMonths 2021 1 31 1 = (2021, 2, 28) ∧ addMonths 2021 1 31 (-2) = (2020, 11, 30) ∧
+    addMonths 2021 12 15 1 = (2022, 1, 15) ∧ addMonths (-1) 1 31 (-1) = (-2, 12, 31) := by decide
+
+/-- Without clamping, adding months is an action of the integers: `(a + n) + k = a + (n + k)` and
+`(a + n) − n = a`. (With clamping it is not: 31 January + 1 month − 1 month = 28 January.) -/
+theorem addMonths_add (y m d n k ry rm rd : Int) (hv : validDate y m d = true)
+    (hc : addMonthsClamps y m d n = false) (hr : addMonths y m d n = (ry, rm, rd)) :
+    addMonths ry rm rd k = addMonths y m d (n + k) ∧ addMonths ry rm rd (-n) = (y, m, d) := by
+  obtain ⟨_, hs, hm1, hm2, _, hcl⟩ := addMonths_valid y m d n ry rm rd hv hr
+  have hrd : rd = d := by
+    have : ¬ rd < d := fun h => by rw [hcl.2 h] at hc; cases hc
+    simp only [addMonths, monthShift, Prod.mk.injEq] at hr
+    omega
+  simp only [validDate, Bool.and_eq_true, decide_eq_true_eq] at hv
+  obtain ⟨⟨⟨h1, h12⟩, hd1⟩, hdm⟩ := hv
+  subst hrd
+  simp only [addMonths, monthShift]
+  have e1 : 12 * ry + (rm - 1) + k = 12 * y + (m - 1) + (n + k) := by omega
+  have e2 : 12 * ry + (rm - 1) + -n = 12 * y + (m - 1) := by omega
+  have e3 : (12 * y + (m - 1)) / 12 = y := by omega
+  have e4 : (12 * y + (m - 1)) % 12 + 1 = m := by omega
+  rw [e1, e2, e3, e4]
+  refine ⟨rfl, ?_⟩
+  have : min rd (daysInMonth y m) = rd := by omega
+  rw [this]
+
+example : addMonthsClamps 2021 1 31 1 = true ∧ addMonths 2021 1 31 1 = (2021, 2, 28) ∧
+    addMonths 2021 2 28 (-1) = (2021, 1, 28) ∧
+    addMonthsClamps 2021 1 28 1 = false ∧ addMonths 2021 1 28 1 = (2021, 2, 28) := by decide
+
+/-- The whole months between a date and the date `n ≥ 0` months later are `n` — unless the addition clamped:
+then one less (31 January → 28 February is no whole month); between a date and the date `n` months
+EARLIER they are `−n` in every case. -/
+theorem wholeMonths_addMonths (y m d n ry rm rd by' bm bd : Int) (hv : validDate y m d = true) (hn : 0 ≤ n)
+    (hr : addMonths y m d n = (ry, rm, rd)) (hb : addMonths y m d (-n) = (by', bm, bd)) :
+    wholeMonths y m d ry rm rd = (if addMonthsClamps y m d n then n - 1 else n) ∧
+    wholeMonths y m d by' bm bd = -n := by
+  obtain ⟨_, hs, hr1, hr2, hd, hcl⟩ := addMonths_valid y m d n ry rm rd hv hr
+  obtain ⟨_, hs', hb1, hb2, hd', _⟩ := addMonths_valid y m d (-n) by' bm bd hv hb
+  simp only [validDate, Bool.and_eq_true, decide_eq_true_eq] at hv
+  obtain ⟨⟨⟨h1, h12⟩, hd1⟩, hdm⟩ := hv
+  constructor
+  · unfold wholeMonths wholeMonthsFwd
+    have hnl : dateLt ry rm rd y m d = false := by
+      cases hh : dateLt ry rm rd y m d
+      · rfl
+      · rw [dateLt_iff] at hh
+        rcases hh with h | ⟨h, h' | ⟨h', h''⟩⟩
+        · omega
+        · omega
+        · subst h h'; omega
+    rw [hnl]
+    simp only [Bool.false_eq_true, if_false]
+    by_cases hc : addMonthsClamps y m d n = true
+    · rw [if_pos hc]; have := hcl.1 hc; rw [if_pos this]; omega
+    · rw [if_neg hc]
+      have : ¬ rd < d := fun h => hc (hcl.2 h)
+      rw [if_neg this]; omega
+  · unfold wholeMonths wholeMonthsFwd
+    by_cases hl : dateLt by' bm bd y m d = true
+    · rw [if_pos hl]
+      have : ¬ d < bd := by omega
+      rw [if_neg this]; omega
+    · rw [if_neg hl]
+      rw [dateLt_iff] at hl
+      have hy : by' = y := by omega
+      have hm : bm = m := by omega
+      subst hy hm
+      have : ¬ bd < d := by omega
+      rw [if_neg this]; omega
+
+example : wholeMonths 2021 1 31 2021 2 28 = 0 ∧ addMonths 2021 1 31 1 = (2021, 2, 28) ∧
+    wholeMonths 2021 1 28 2021 2 28 = 1 ∧ wholeMonths 2021 3 31 2021 2 28 = -1 ∧
+    addMonths 2021 3 31 (-1) = (2021, 2, 28) := by decide
+
+/-- "The number of whole months between": for calendar dates `a ≤ b` and `n` the whole months from `a` to
+`b`, the date `n` months after `a` is not after `b`, and the date `n + 1` months after `a` is after `b` —
+or was clamped to the end of a shorter month (then it may still be on or before `b`: the day of the month of
+`a` has not been reached). -/
+theorem wholeMonths_largest (y1 m1 d1 y2 m2 d2 ry rm rd sy sm sd : Int)
+    (h1 : validDate y1 m1 d1 = true) (h2 : validDate y2 m2 d2 = true)
+    (hle : dateLt y2 m2 d2 y1 m1 d1 = false)
+    (hr : addMonths y1 m1 d1 (wholeMonths y1 m1 d1 y2 m2 d2) = (ry, rm, rd))
+    (hs : addMonths y1 m1 d1 (wholeMonths y1 m1 d1 y2 m2 d2 + 1) = (sy, sm, sd)) :
+    0 ≤ wholeMonths y1 m1 d1 y2 m2 d2 ∧ dateLt y2 m2 d2 ry rm rd = false ∧
+    (dateLt y2 m2 d2 sy sm sd = true ∨ addMonthsClamps y1 m1 d1 (wholeMonths y1 m1 d1 y2 m2 d2 + 1) = true) := by
+  have hn : wholeMonths y1 m1 d1 y2 m2 d2 = wholeMonthsFwd y1 m1 d1 y2 m2 d2 := by
+    unfold wholeMonths; rw [hle]; simp
+  have hle' : ¬ (y2 < y1 ∨ (y2 = y1 ∧ (m2 < m1 ∨ (m2 = m1 ∧ d2 < d1)))) := by
+    intro h; have := (dateLt_iff _ _ _ _ _ _).2 h; rw [hle] at this; cases this
+  obtain ⟨_, es, r1, r2, hd, _⟩ := addMonths_valid y1 m1 d1 _ ry rm rd h1 hr
+  obtain ⟨_, es', s1, s2, hd', hcl⟩ := addMonths_valid y1 m1 d1 _ sy sm sd h1 hs
+  simp only [validDate, Bool.and_eq_true, decide_eq_true_eq] at h1 h2
+  obtain ⟨⟨⟨a1, a12⟩, ad1⟩, _⟩ := h1
+  obtain ⟨⟨⟨b1, b12⟩, bd1⟩, _⟩ := h2
+  rw [hn] at es es' hcl ⊢
+  unfold wholeMonthsFwd at es es' ⊢
+  refine ⟨by split <;> omega, ?_, ?_⟩
+  · cases hh : dateLt y2 m2 d2 ry rm rd
+    · rfl
+    · rw [dateLt_iff] at hh
+      split at es <;> omega
+  · by_cases hc : sd < d1
+    · exact Or.inr (hcl.2 hc)
+    · refine Or.inl ((dateLt_iff _ _ _ _ _ _).2 ?_)
+      split at es' <;> omega
+
+example : validDate 2021 1 31 = true ∧ validDate 2021 3 30 = true ∧ wholeMonths 2021 1 31 2021 3 30 = 1 ∧
+    addMonths 2021 1 31 1 = (2021, 2, 28) ∧ addMonths 2021 1 31 2 = (2021, 3, 31) ∧
+    -- the clamped case: 31 January → 28 February is 0 whole months although 31 January + 1 month = 28 February
+    wholeMonths 2021 1 31 2021 2 28 = 0 ∧ addMonthsClamps 2021 1 31 1 = true := by decide
+
+/-! ## Conversions: a date and time is its date and its time; whole months use the written dates -/
+
+/-- `date and time(date(v), time(v)) = v` for every date and time `v`: the date part and the time part (with
+its offset or zone) recompose to the value; `date and time(d, t)` has exactly the date `d` and the time `t`;
+the date of a date is itself; the time of a date is UTC midnight. -/
+theorem datetime_decompose_recompose (dt : DateTime) (d : Date) (t : Time) :
+    bifDateTimeOf (bifDateOf (.dateTime dt)) (bifTimeOf (.dateTime dt)) = .dateTime dt ∧
+    bifDateTimeOf (.dateTime dt) (bifTimeOf (.dateTime dt)) = .dateTime dt ∧
+    bifDateOf (bifDateTimeOf (.date d) (.time t)) = .date d ∧
+    bifTimeOf (bifDateTimeOf (.date d) (.time t)) = .time t ∧
+    bifDateOf (.date d) = .date d ∧ bifTimeOf (.date d) = .time ⟨0, 0, 0, 0, .utc⟩ := by
+  refine ⟨rfl, rfl, rfl, rfl, rfl, rfl⟩
+
+/-- `years and months duration(from, to)` on dates and date-and-times in any combination is the signed
+number of whole months between the WRITTEN (local) dates: times of day, offsets and zones take no part. -/
+theorem ym_whole_months_datetimes (f t : DateTime) :
+    let w := wholeMonths f.date.y f.date.m f.date.d t.date.y t.date.m t.date.d
+    bifYmDuration (.dateTime f) (.dateTime t) = .ymDur w ∧
+    bifYmDuration (.date f.date) (.dateTime t) = .ymDur w ∧
+    bifYmDuration (.dateTime f) (.date t.date) = .ymDur w ∧
+    bifYmDuration (.date f.date) (.date t.date) = .ymDur w ∧
+    (∀ tf tt, bifYmDuration (.dateTime ⟨f.date, tf⟩) (.dateTime ⟨t.date, tt⟩) = .ymDur w) := by
+  intro w
+  have h := ym_whole_months f.date t.date
+  refine ⟨?_, ?_, ?_, ?_, ?_⟩ <;> simp [bifYmDuration, h, w]
+
+/-- An hour before the end of the month in UTC, already in the next month on the wall clock: the written
+dates count (2021-01-31 → 2021-03-01 is one whole month; the instants are two calendar months apart less
+two hours). -/
+example :
+    bifYmDuration (.dateTime ⟨⟨2021, 1, 31⟩, ⟨23, 0, 0, 0, .utc⟩⟩)
+      (.dateTime ⟨⟨2021, 3, 1⟩, ⟨0, 0, 0, 0, .offset 7200⟩⟩) = .ymDur 1 := by decide
+
+/-! ## Zone-less date-times: the offset of the zone of the process
+
+A zone-less date and time is resolved with `get_local_offset` (the zone of the process, `TZ`). Since the
+repair (branch fix-t14) the offset is the one in force for the WRITTEN wall-clock reading under the rules
+of that zone — as for a named zone. Before, the written fields were read as a UTC instant. -/
+
+/-- The offset a zone-less (or named-zone) date and time is resolved with names the one instant whose wall
+clock, under the rules of the zone, shows the written date and time; its instant on the UTC line is that
+instant. -/
+theorem local_offset_denotes (zr : ZoneRules) (a : DateTime) (o : Int)
+    (hz : oracleByRules zr a = some o) :
+    let l := localSeconds a.date a.time.h a.time.mi a.time.s
+    zr.denote l = .instant (l - o) o ∧ zr.offsetAt (l - o) = o ∧ (l - o) + zr.offsetAt (l - o) = l ∧
+    (∀ t', t' + zr.offsetAt t' = l → t' = l - o) ∧
+    a.inst o = (l - o) * nsPerSecond + a.time.ns := by
+  intro l
+  obtain ⟨_, hd⟩ := zoneOffsetByRules_some hz
+  obtain ⟨_, h2, h3, h4⟩ := zr.denote_instant l (l - o) o hd
+  refine ⟨hd, h2, h3, h4, ?_⟩
+  show a.inst o = (localSeconds a.date a.time.h a.time.mi a.time.s - o) * nsPerSecond + a.time.ns
+  unfold DateTime.inst instant localSeconds nsPerDay nsPerHour nsPerMinute nsPerSecond
+  generalize daysFromCivil a.date.y a.date.m a.date.d = z
+  omega
+
+/-- Europe/Warsaw, 2021-03-28 (01:00Z: +01:00 → +02:00): `01:30` is read at +01:00, `02:30` has no offset. -/
+example :
+    let zr : ZoneRules := ⟨3600, [(1616893200, 7200), (1635642000, 3600)]⟩
+    oracleByRules zr ⟨⟨2021, 3, 28⟩, ⟨1, 30, 0, 0, .localZ⟩⟩ = some 3600 ∧
+    oracleByRules zr ⟨⟨2021, 3, 28⟩, ⟨2, 30, 0, 0, .localZ⟩⟩ = none ∧
+    oracleByRules zr ⟨⟨2021, 3, 28⟩, ⟨3, 30, 0, 0, .localZ⟩⟩ = some 7200 := by decide
+
+/-- Reading the written fields as UTC (the code before the repair) gives the right offset exactly when the
+zone has the same offset at the instant that the fields would name in UTC — in a zone without transitions
+always (which is why a process running in UTC never shows the difference). -/
+theorem local_offset_read_as_utc_agrees_iff (zr : ZoneRules) (a : DateTime) (o : Int)
+    (hz : oracleByRules zr a = some o) :
+    (localOffsetReadAsUtc zr a.date a.time.h a.time.mi a.time.s a.time.ns = some o ↔
+      zr.offsetAt (localSeconds a.date a.time.h a.time.mi a.time.s) = o) ∧
+    (zr.trs = [] → localOffsetReadAsUtc zr a.date a.time.h a.time.mi a.time.s a.time.ns = some o) := by
+  obtain ⟨hok, hd⟩ := zoneOffsetByRules_some hz
+  have hr : localOffsetReadAsUtc zr a.date a.time.h a.time.mi a.time.s a.time.ns =
+      some (zr.offsetAt (localSeconds a.date a.time.h a.time.mi a.time.s)) := by
+    unfold localOffsetReadAsUtc; rw [if_pos hok]
+  refine ⟨?_, ?_⟩
+  · rw [hr]
+    exact ⟨fun h => by injection h, fun h => by rw [h]⟩
+  · intro ht
+    rw [hr]
+    obtain ⟨_, h2, _⟩ := zr.denote_instant _ _ o hd
+    have e : ∀ t, zr.offsetAt t = zr.initial := by
+      intro t; unfold ZoneRules.offsetAt; rw [ht]; rfl
+    rw [e] at h2 ⊢
+    rw [h2]
+
+/-- The code before the repair, under the rules of Europe/Warsaw: on 2021-03-28 the zone-less `01:30` was
+read at +02:00 instead of +01:00, so that `00:45` compared GREATER than `01:15` of the same morning (both
+exist once) — with the offsets by the rules it compares less. Re-observed on the real code by the family
+`process-zone` (child processes with `TZ` set). -/
+theorem local_offset_read_as_utc_counterexample :
+    let zr : ZoneRules := ⟨3600, [(1616893200, 7200), (1635642000, 3600)]⟩
+    let a : DateTime := ⟨⟨2021, 3, 28⟩, ⟨0, 45, 0, 0, .localZ⟩⟩
+    let b : DateTime := ⟨⟨2021, 3, 28⟩, ⟨1, 15, 0, 0, .localZ⟩⟩
+    localOffsetReadAsUtc zr b.date 1 15 0 0 = some 7200 ∧ oracleByRules zr b = some 3600 ∧
+    Temporal.compare a b (localOffsetReadAsUtc zr a.date 0 45 0 0) (localOffsetReadAsUtc zr b.date 1 15 0 0)
+      = .val .gt ∧
+    Temporal.compare a b (oracleByRules zr a) (oracleByRules zr b) = .val .lt ∧
+    subtract b a (oracleByRules zr b) (oracleByRules zr a) = .val 1800000000000 := by decide
+
 
 end Dmn.C15
